@@ -2,27 +2,7 @@
 (* Named non-convex lattice polygons (counter-clockwise), used as the Seeds of Polygon2: shapes with many reflex      *)
 (* corners that the ear-growth machine reaches only at depths beyond the exhaustive bound.  Every seed goes through    *)
 (* the same invariants (TypeOK: simple, triangulated; T1: layer A = layer D) as the grown states.                       *)
-EXTENDS Polygon2
-
-\* three-tooth comb (12 vertices): teeth of width 1 at x = 0..1, 2..3, 4..5 on a back of height 1
-Comb12 == << <<0, 0>>, <<5, 0>>, <<5, 3>>, <<4, 3>>, <<4, 1>>, <<3, 1>>, <<3, 3>>, <<2, 3>>, <<2, 1>>, <<1, 1>>, <<1, 3>>, <<0, 3>> >>
-\* four-tooth comb with teeth of different heights (16 vertices)
-Comb16 == << <<0, 0>>, <<7, 0>>, <<7, 2>>, <<6, 2>>, <<6, 1>>, <<5, 1>>, <<5, 4>>, <<4, 4>>, <<4, 1>>, <<3, 1>>, <<3, 3>>, <<2, 3>>,
-             <<2, 1>>, <<1, 1>>, <<1, 5>>, <<0, 5>> >>
-\* saw blade: slanted teeth (10 vertices), no axis-parallel tooth flank
-Saw10 == << <<0, 0>>, <<8, 0>>, <<8, 3>>, <<6, 1>>, <<6, 3>>, <<4, 1>>, <<4, 3>>, <<2, 1>>, <<2, 3>>, <<0, 1>> >>
-\* rectangular spiral (14 vertices): not star-shaped from any point
-Spiral14 == << <<0, 0>>, <<6, 0>>, <<6, 6>>, <<1, 6>>, <<1, 2>>, <<4, 2>>, <<4, 4>>, <<3, 4>>, <<3, 3>>, <<2, 3>>, <<2, 5>>, <<5, 5>>,
-               <<5, 1>>, <<0, 1>> >>
-\* slanted zig-zag band (8 vertices): reflex corners alternate with convex ones, first corner reflex after one shift
-Zig8 == << <<0, 0>>, <<2, 2>>, <<4, 0>>, <<6, 2>>, <<6, 4>>, <<4, 2>>, <<2, 4>>, <<0, 2>> >>
-\* star with thin arms (8 vertices)
-Star8 == << <<3, 0>>, <<4, 2>>, <<6, 3>>, <<4, 4>>, <<3, 6>>, <<2, 4>>, <<0, 3>>, <<2, 2>> >>
-\* plus sign (12 vertices), U (8), T (8), L (6)
-Plus12 == << <<2, 0>>, <<4, 0>>, <<4, 2>>, <<6, 2>>, <<6, 4>>, <<4, 4>>, <<4, 6>>, <<2, 6>>, <<2, 4>>, <<0, 4>>, <<0, 2>>, <<2, 2>> >>
-U8 == << <<0, 0>>, <<5, 0>>, <<5, 4>>, <<4, 4>>, <<4, 1>>, <<1, 1>>, <<1, 4>>, <<0, 4>> >>
-T8 == << <<2, 0>>, <<3, 0>>, <<3, 3>>, <<5, 3>>, <<5, 4>>, <<0, 4>>, <<0, 3>>, <<2, 3>> >>
-L6 == << <<0, 0>>, <<4, 0>>, <<4, 1>>, <<1, 1>>, <<1, 5>>, <<0, 5>> >>
+EXTENDS Polygon2, NamedPolygons
 
 Named == {Comb12, Comb16, Saw10, Spiral14, Zig8, Star8, Plus12, U8, T8, L6}
 \* a single triangle: random growth (-simulate) starts here instead of at every lattice triangle
